@@ -4,6 +4,7 @@ import (
 	"encoding/base64"
 	"encoding/json"
 	"fmt"
+	"strings"
 
 	"github.com/notaryproject/notation-go/zzverif/lib/forge"
 )
@@ -38,10 +39,14 @@ type Tuple struct {
 	Sig   string `json:"signature"` // jws cose jws-as-cose cose-as-jws garbage empty nil
 	Plug  bool   `json:"plugin_demanded"`
 	Ref   string `json:"reference"` // digest | tag | out-of-scope
+	// dimensions crossed under the digest reference for the signatures that parse (jws, cose)
+	Attr     string `json:"extended_attribute"` // none | str-crit | str-noncrit | int-crit | int-noncrit
+	Artifact string `json:"artifact"`           // matching | mismatching (the presented descriptor / blob is not the signed one)
+	Meta     string `json:"user_metadata"`      // none | satisfied | unsatisfied
 }
 
 func (t Tuple) String() string {
-	return fmt.Sprintf("%s/%s/%s/%s@%s/%s/%s/plugin=%v/%s", t.Cons, t.PM, t.Rev, t.Level, t.Place, t.Entry, t.Sig, t.Plug, t.Ref)
+	return fmt.Sprintf("%s/%s/%s/%s@%s/%s/%s/plugin=%v/attr=%s/%s/artifact=%s/metadata=%s", t.Cons, t.PM, t.Rev, t.Level, t.Place, t.Entry, t.Sig, t.Plug, t.Attr, t.Ref, t.Artifact, t.Meta)
 }
 
 var (
@@ -55,10 +60,13 @@ var (
 	envelopeSigs  = []string{"jws", "cose", "jws-as-cose", "cose-as-jws"}
 	bareSigs      = []string{"garbage", "empty", "nil"}
 	references    = []string{"digest", "tag", "out-of-scope"}
+	artifacts     = []string{"matching", "mismatching"}
+	metadatas     = []string{"none", "satisfied", "unsatisfied"}
+	readerKinds   = []string{"one-byte-at-a-time", "data-together-with-EOF", "two-halves", "failing-after-half", "failing-after-all-data"}
 	protoCommands = []string{"get-plugin-metadata", "describe-key", "generate-signature", "generate-envelope", "verify-signature"}
 )
 
-func matrixCases() []Case {
+func matrixCases(thorough bool) []Case {
 	var out []Case
 	add := func(t Tuple) {
 		tt := t
@@ -69,22 +77,40 @@ func matrixCases() []Case {
 			for _, rv := range revocations {
 				for _, lv := range levels {
 					for _, pl := range placements {
-						sigs := func(f func(sig string, plug bool)) {
+						// full: every signature kind x plugin demand with the default (no attribute, matching artifact, no metadata);
+						// wide: under the digest reference the parsing signatures additionally x attribute x artifact x metadata
+						cells := func(e, ref string, wide bool) {
 							for _, s := range envelopeSigs {
-								f(s, false)
-								f(s, true)
+								for _, plug := range []bool{false, true} {
+									// quick crosses the three extra dimensions with one revocation option (they do not meet: revocation
+									// is decided on the certificate chain alone); thorough with all three
+									if !wide || (s != "jws" && s != "cose") || (!thorough && rv != "validator") {
+										add(Tuple{c, pm, rv, lv, pl, e, s, plug, ref, "none", "matching", "none"})
+										continue
+									}
+									for _, at := range attrKinds {
+										if s == "jws" && strings.HasPrefix(at, "int-") {
+											continue
+										}
+										for _, art := range artifacts {
+											for _, md := range metadatas {
+												add(Tuple{c, pm, rv, lv, pl, e, s, plug, ref, at, art, md})
+											}
+										}
+									}
+								}
 							}
 							for _, s := range bareSigs {
-								f(s, false)
+								add(Tuple{c, pm, rv, lv, pl, e, s, false, ref, "none", "matching", "none"})
 							}
 						}
 						for _, e := range ociEntries {
 							for _, ref := range references {
-								sigs(func(s string, plug bool) { add(Tuple{c, pm, rv, lv, pl, e, s, plug, ref}) })
+								cells(e, ref, ref == "digest")
 							}
 						}
 						for _, e := range blobEntries {
-							sigs(func(s string, plug bool) { add(Tuple{c, pm, rv, lv, pl, e, s, plug, ""}) })
+							cells(e, "", true)
 						}
 					}
 				}
@@ -108,6 +134,24 @@ var nilArgCases = []string{
 	"crl.NewFileCache:get-missing", "crl.FileCache.Set:nil-bundle", "crl.FileCache.Get:directory-at-entry",
 	"registry.NewOCIRepository:missing-path", "registry.NewOCIRepository:file-path", "registry.NewOCIRepository:empty-directory",
 	"registry.Repository.FetchSignatureBlob:zero-descriptor", "registry.Repository.ListSignatures:zero-descriptor",
+}
+
+// readerCases: the way the caller's reader delivers the blob to notation.VerifyBlob must not matter.
+func readerCases() []Case {
+	var out []Case
+	for _, rk := range readerKinds {
+		for _, lv := range []string{"strict", "audit", "skip"} {
+			for _, s := range []string{"jws", "cose"} {
+				for _, art := range artifacts {
+					for _, md := range metadatas {
+						t := Tuple{"both", "scripted", "validator", lv, "blob-named", "notation.VerifyBlob", s, false, "", "none", art, md}
+						out = append(out, Case{Family: "reader-seam", Kind: rk, Label: rk + "/" + t.String(), Class: rk, Matrix: &t})
+					}
+				}
+			}
+		}
+	}
+	return out
 }
 
 // envelopeCases: Hamming-1 neighbourhood and truncations of the valid JWS / COSE envelope.
